@@ -47,10 +47,24 @@ struct JobOut {
 const HOST: &str = "vhost";
 
 pub fn contents() -> Vec<Vec<u8>> {
-    // one empty, and two of EQUAL length (a same-size edit must still be seen as a change)
-    let mut c: Vec<Vec<u8>> = vec![b"".to_vec(), b"hello world\n".to_vec(), b"HELLO WORLD\n".to_vec()];
-    c.sort_by_key(|x| *blake3::hash(x).as_bytes());
-    c
+    // one empty content, and two of EQUAL length (a same-size edit must still be seen as a change);
+    // one of the two is searched so that its BLAKE3 starts with a zero hex digit (names derived from
+    // hashes must keep leading zeros)
+    static C: std::sync::OnceLock<Vec<Vec<u8>>> = std::sync::OnceLock::new();
+    C.get_or_init(|| {
+        let mut z: Vec<u8> = Vec::new();
+        for i in 0u32.. {
+            let cand = format!("v{i:06}\n").into_bytes();
+            if blake3::hash(&cand).as_bytes()[0] < 0x10 {
+                z = cand;
+                break;
+            }
+        }
+        let mut c: Vec<Vec<u8>> = vec![b"".to_vec(), z, b"V-other\n".to_vec()];
+        c.sort_by_key(|x| *blake3::hash(x).as_bytes());
+        c
+    })
+    .clone()
 }
 fn content_id(bytes: &[u8]) -> u8 {
     contents().iter().position(|c| c == bytes).map_or(255, |i| i as u8 + 1)
@@ -466,6 +480,22 @@ fn worker_job(w: &Worker, job: &Job) -> JobOut {
     out.post_r = arch.as_ref().ok().and_then(|x| x.as_ref().map(|y| y.0.clone()));
     let completed = res == "ok" || res == "conflicts";
     if !completed {
+        if cross_clash(st) && res.starts_with("error") {
+            // a file-vs-directory clash across the sides cannot be synced: an error exit is expected.
+            // The failing run must still not lose anything from the side that held it.
+            if mode == "C02" {
+                for (side, pre, post) in [("A", &st.a, &pa), ("B", &st.b, &pb)] {
+                    for (p, c) in pre.iter().filter(|(p, _)| !staging(p)) {
+                        if post.get(p) != Some(c) && !survives(post, p, *c) {
+                            out.violations.push(("version_lost".into(), format!("a FAILING run ({res}) removed version {p}=c{c} from side {side}"), json!({"cause": "failed_run", "path": p})));
+                            return out;
+                        }
+                    }
+                }
+            }
+            out.result = "failed-clash".into();
+            return out;
+        }
         out.violations.push(("run_failed".into(), format!("bisync did not complete: {res}"), json!({})));
         return out;
     }
@@ -848,6 +878,24 @@ impl Drop for Pool {
     }
 }
 
+/// Would putting a regular file at `p` clash with a directory / file already implied by tree `t`?
+fn clashes_within(t: &Tree, p: &str) -> bool {
+    t.keys().any(|q| q != p && (q.starts_with(&format!("{p}/")) || p.starts_with(&format!("{q}/"))))
+}
+/// A path that is a file on one side and (a prefix of) a directory on the other: the run must fail.
+fn cross_clash(st: &State) -> bool {
+    let f = |x: &Tree, y: &Tree| x.keys().any(|p| y.keys().any(|q| q.starts_with(&format!("{p}/"))));
+    f(&st.a, &st.b) || f(&st.b, &st.a)
+}
+
+/// Reserved staging names (and anything derived from them) are outside the domain of the properties.
+fn staging(p: &str) -> bool {
+    p.ends_with(".copia-tmp") || p.contains(".copia-tmp.")
+}
+fn strip_staging(t: Tree) -> Tree {
+    t.into_iter().filter(|(p, _)| !staging(p)).collect()
+}
+
 fn editable(p: &str) -> bool {
     p.matches(".conflict-").count() <= 2 && !p.ends_with(".copia-tmp")
 }
@@ -861,7 +909,7 @@ fn user_ops(st: &State, u0: &[&str]) -> Vec<(String, State)> {
         for side in ["A", "B"] {
             let cur = if side == "A" { st.a.get(p).copied() } else { st.b.get(p).copied() };
             for c in 1..=3u8 {
-                if cur != Some(c) {
+                if cur != Some(c) && !clashes_within(if side == "A" { &st.a } else { &st.b }, p) {
                     let mut n = st.clone();
                     if side == "A" {
                         n.a.insert(p.clone(), c);
@@ -944,6 +992,9 @@ pub fn explore_collect(ctx: &Ctx, mode: &str, bounds: &[Bound], fault_full_trunc
                 }
                 k /= 16;
             }
+            if st.a.keys().any(|p| clashes_within(&st.a, p)) || st.b.keys().any(|p| clashes_within(&st.b, p)) {
+                continue;
+            }
             if seen.insert(st.clone()) {
                 hist.insert(st.clone(), vec![format!("init A={:?} B={:?}", st.a, st.b)]);
                 frontier.push(st);
@@ -1011,8 +1062,14 @@ pub fn explore_collect(ctx: &Ctx, mode: &str, bounds: &[Bound], fault_full_trunc
                     }
                     continue; // successors of a violating transition are not expanded
                 }
-                let common: Tree = o.post_a.iter().filter(|(p, c)| o.post_b.get(*p) == Some(c)).map(|(p, c)| (p.clone(), *c)).collect();
-                let ns = State { a: o.post_a, b: o.post_b, r: o.post_r, s: common, runs: st.runs + 1, ops: 0 };
+                let common: Tree = if o.result == "failed-clash" {
+                    st.s.clone() // the oracle memory only advances at completed runs
+                } else {
+                    o.post_a.iter().filter(|(p, c)| o.post_b.get(*p) == Some(c)).map(|(p, c)| (p.clone(), *c)).collect()
+                };
+                // leftovers with reserved staging names (only a FAILED run leaves any) are outside the domain:
+                // the successor state is the tree without them, i.e. they are cleaned up between runs
+                let ns = State { a: strip_staging(o.post_a), b: strip_staging(o.post_b), r: o.post_r.map(strip_staging), s: strip_staging(common), runs: st.runs + 1, ops: 0 };
                 if seen.insert(ns.clone()) {
                     if samples.len() < 4 && h.len() >= 4 {
                         samples.push(json!({"history": h, "reached": ns}));
@@ -1093,12 +1150,15 @@ pub fn run(ctx: &Ctx, mode: &str) -> ! {
         replay(ctx, mode);
     }
     let t = ctx.tier.is_thorough();
+    // universes: a single path; two independent paths; a pair whose byte order and component order
+    // disagree ("n.t" < "n/t" bytewise, "n/t" < "n.t" as paths); a file-vs-directory pair ("d", "d/g")
+    let b = |u0: Vec<&'static str>, e: u8, m: u8| Bound { u0, e, m, state_cap: 2_500_000 };
     let bounds: Vec<Bound> = match (mode, t) {
-        ("C07", false) => vec![Bound { u0: vec!["f"], e: 2, m: 2, state_cap: 400_000 }],
-        ("C07", true) => vec![Bound { u0: vec!["f"], e: 3, m: 2, state_cap: 400_000 }, Bound { u0: vec!["f", "d/g"], e: 2, m: 1, state_cap: 400_000 }],
-        (_, false) => vec![Bound { u0: vec!["f"], e: 3, m: 2, state_cap: 400_000 }, Bound { u0: vec!["f", "d/g"], e: 2, m: 1, state_cap: 400_000 }],
-        ("C06", true) => vec![Bound { u0: vec!["f"], e: 4, m: 2, state_cap: 1_500_000 }, Bound { u0: vec!["f"], e: 3, m: 3, state_cap: 1_500_000 }, Bound { u0: vec!["f", "d/g"], e: 3, m: 2, state_cap: 1_500_000 }],
-        (_, true) => vec![Bound { u0: vec!["f"], e: 5, m: 2, state_cap: 2_500_000 }, Bound { u0: vec!["f"], e: 3, m: 3, state_cap: 2_500_000 }, Bound { u0: vec!["f", "d/g"], e: 3, m: 2, state_cap: 2_500_000 }],
+        ("C07", false) => vec![b(vec!["f"], 2, 2), b(vec!["n.t", "n/t"], 1, 0)],
+        ("C07", true) => vec![b(vec!["f"], 3, 2), b(vec!["f", "d/g"], 2, 1), b(vec!["n.t", "n/t"], 2, 1)],
+        ("C06", true) => vec![b(vec!["f"], 4, 2), b(vec!["f"], 3, 3), b(vec!["f", "d/g"], 3, 2), b(vec!["n.t", "n/t"], 2, 2)],
+        (_, false) => vec![b(vec!["f"], 3, 2), b(vec!["f", "d/g"], 2, 1), b(vec!["n.t", "n/t"], 2, 1), b(vec!["d", "d/g"], 2, 1)],
+        (_, true) => vec![b(vec!["f"], 5, 2), b(vec!["f"], 3, 3), b(vec!["f", "d/g"], 3, 2), b(vec!["n.t", "n/t"], 3, 2), b(vec!["d", "d/g"], 3, 2)],
     };
     let (rep, v) = explore(ctx, mode, &bounds, 1);
     finish(ctx, rep, v);
